@@ -38,12 +38,18 @@ func c13(c *q.Ctx) {
 		c.ArgIs(mn, "Miner.packBlock", 2, "(1 + p0.ctx.Ledger.meta.TrunkHeight)", 1, "the block is packed for trunk height + 1")
 		c.Then(mn, q.ToCall("Miner.truncateForMiner"), q.ToCall("Ledger.GetMeta"), q.ToCall("Miner.packBlock"), nil, "after a truncation the trunk height is read again before the block is packed")
 	}
+	utxoCacheEviction(c)
 	if pk := c.Fn(miner + "(*Miner).packBlock"); pk != nil {
 		c.ArgIs(pk, "Miner.getAwardTx", 1, "p2", 1, "award computed for the height that is packed")
 		c.ArgIs(pk, "Ledger.FormatMinerBlock", 12, "p2", 1, "the block is formatted at that height")
 		c.ArgIs(pk, "Miner.getTimerTx", 1, "p2", 1, "the timer transaction is generated for that height")
 		// order: award, timer tx, pool prefix
 		c.Effect(pk, q.Eff{Spec: "append", Arg: 1, Glob: "[miner.(*Miner).getAwardTx(p0,p2)#0]", Why: "the award transaction comes first", Rule: "K2"})
+		// the timer transaction is packed exactly when it writes something (a verifier re-generates it and compares
+		// its outputs; an empty one is not in the block, one with writes is)
+		timer := "miner.(*Miner).getTimerTx(p0,p2)#0"
+		c.Effect(pk, q.Eff{Spec: "append", Arg: 1, Glob: "[" + timer + "]", Req: []q.Cond{{Canon: "(0 == len(" + timer + ".TxOutputsExt))", Sense: false}}, Exact: true,
+			Keep: func(g q.Cond) bool { return strings.Contains(g.Canon, timer+".") }, Why: "the timer transaction is in the block iff it has model writes", Rule: "K2"})
 		c.Effect(pk, q.Eff{Spec: "append", Arg: 1, Glob: "miner.(*Miner).getUnconfirmedTx(*)#0", Why: "followed by the pool prefix in pool order", Rule: "K2"})
 	}
 	if iv := c.Fn(led + "(*Ledger).IsValidTx"); iv != nil {
